@@ -184,6 +184,19 @@ def gen_case(rng, stream=None):
                 delta = rng.choice([-1, 1]) * rng.choice([F(1, 2048), F(1, 1024), F(1, 512), F(1, 1024)])
                 b[side] += delta
         case["stats"] = stats + ["perturbed"]
+        # a side that the duplicate removal drops (eps away from a kept boundary) and that passes exactly
+        # through the centre of a cell 2*eps wide: decides whether point_inside is closed
+        boxes = regions + fixed
+        if len(boxes) >= 2 and rng.random() < 0.5:
+            axis = rng.randrange(2)
+            line = rng.choice(xs if axis == 0 else ys)
+            on = [(b, s) for b in boxes for s in (axis, axis + 2) if abs(b[s] - line) <= F(1, 256)]
+            if len(on) >= 2:
+                (b1, s1), (b2, s2) = rng.sample(on, 2)
+                sg = rng.choice([-1, 1])
+                b1[s1] = line + sg * F(1, 512)
+                b2[s2] = line + sg * F(1, 1024)
+                case["stats"] = case["stats"] + ["centre-line"]
     tree_regions = [[(b[0] + b[2]) / 2, (b[1] + b[3]) / 2, b[2] - b[0], b[3] - b[1], b[4]] for b in regions]
     case["fixed"] = [[(b[0] + b[2]) / 2, (b[1] + b[3]) / 2, b[2] - b[0], b[3] - b[1]] for b in fixed]
     tree = {"width": W, "height": H}
